@@ -278,7 +278,7 @@ def set_default_doc(param, emit_default_doc=True):
                     if _param["doc"][-1] in frozenset((".", ","))
                     else "{doc}.".format(doc=_param["doc"])
                 ),
-                default=quote(_param["default"])
+                default=(quote(_param["default"]) or '""')  # `quote` leaves the empty string bare
                 if needs_quoting(_param.get("typ"))
                 else _param["default"],
             )
